@@ -16,10 +16,13 @@ def outputs(o):
     return (o.get("table"), o.get("newick"), tuple(sorted((o.get("archive") or {}).items())))
 
 
-def make_trace(seed):
+def make_trace(seed, long=False):
     r = random.Random(seed)
     spec = wp.spec_from_seed(seed, boundary=False, finite_clock=False)
-    spec["options"]["num_iters"] = r.choice([1, 2, 4, 8])
+    spec["options"]["num_iters"] = r.choice([1, 2, 4, 8]) if not long else r.choice([40, 45, 70])
+    if long:
+        spec["options"]["thin"] = 1
+        spec["options"]["num_chains"] = 2
     spec["options"]["num_particles"] = r.choice([2, 3])
     spec["options"]["grid_size"] = 11
     h = wp.run_pipeline(spec)
@@ -27,8 +30,9 @@ def make_trace(seed):
 
 
 def prefix_task(item):
-    seed, lo, hi = item
-    spec, h = make_trace(seed)
+    seed, lo, hi = item[:3]
+    long = bool(len(item) > 3 and item[3])
+    spec, h = make_trace(seed, long=long)
     img = h["image"]
     full = [outputs(wp.run_summaries(img, rd)) for rd in READERS]
     problems = []
@@ -48,16 +52,17 @@ def prefix_task(item):
                 continue
             problems.append(({"sub": "partial_trace_accepted", "reader": rd[0]},
                              "%s succeeded on the first %d of %d bytes with outputs that differ from the complete trace's" % (rd[0], k, len(img)),
-                             {"seed": seed, "k": k, "reader": list(rd)}))
+                             {"seed": seed, "k": k, "reader": list(rd), "long": long}))
     return {"stats": stats, "problems": problems[:2]}
 
 
 def writer_task(item):
     """Disk-full / kill at byte k during the write itself: the writer must not report success."""
-    seed, ks = item
+    seed, ks = item[:2]
+    long = bool(len(item) > 2 and item[2])
     import phyclone.process_trace.process_trace as ppt
 
-    spec, h = make_trace(seed)
+    spec, h = make_trace(seed, long=long)
     res = h["results"]
     fs0 = wp.SimFS()
     fs0.manage("OUT")
@@ -95,7 +100,7 @@ def writer_task(item):
             durable = fs.images.get("OUT", b"")
             if raised is None:
                 problems.append(({"sub": "write_fault_reported_success", "fault": kind}, "writer returned normally although the disk accepted only %d of %d bytes" % (k, len(img)),
-                                 {"seed": seed, "k": k, "fault": kind}))
+                                 {"seed": seed, "k": k, "fault": kind, "long": long}))
             if durable != img[: len(durable)] or len(durable) > k:
                 raise runner.HarnessError("durable image after %s@%d is not a prefix of the complete image" % (kind, k))
     return {"fired": fired, "problems": problems[:2], "len": len(img)}
@@ -123,15 +128,16 @@ def run(ctx):
     seeds = [ctx.sub(("trace", i)) for i in range(n_traces)]
     lens = {}
     items = []
+    long_seeds = set(seeds[:1] if quick else seeds[:6])  # traces long enough to span several blocks of any chunked format
     for s in seeds:
-        spec, h = make_trace(s)
+        spec, h = make_trace(s, long=s in long_seeds)
         if h["image"] is None:
             raise runner.HarnessError("trace run raised: %r" % (h["exception"],))
         L = len(h["image"])
         lens[s] = (L, spec["options"]["num_chains"], sum(len(v["trace"]) for v in h["results"].values()), spec["inputs"]["cluster_rows"] is not None)
         step = 200
         for lo in range(0, L, step):
-            items.append((s, lo, lo + step))
+            items.append((s, lo, lo + step, s in long_seeds))
     res = runner.pmap(prefix_task, items, timeout=1500)
     calls = raised = ident = 0
     exc_types = {}
@@ -147,7 +153,7 @@ def run(ctx):
     for s in seeds:
         L = lens[s][0]
         ks = sorted(set(list(range(0, 64)) + list(range(max(0, L - 64), L)) + list(range(0, L, 256 if quick else 64))))
-        witems.append((s, ks))
+        witems.append((s, ks, s in long_seeds))
     wres = runner.pmap(writer_task, witems, timeout=1500)
     for out in wres:
         if out.get("bypassed"):
@@ -183,9 +189,9 @@ def run(ctx):
 def replay(ctx, obj):
     wp.warm_up()
     if obj["kind"] == "prefix":
-        out = prefix_task((obj["seed"], obj["k"], obj["k"] + 1))
+        out = prefix_task((obj["seed"], obj["k"], obj["k"] + 1, obj.get("long", False)))
     elif obj["kind"] == "writer":
-        out = writer_task((obj["seed"], [obj["k"]]))
+        out = writer_task((obj["seed"], [obj["k"]], obj.get("long", False)))
     else:
         out = failed_worker_task(obj["seed"])
     for key, detail, rep in out["problems"]:
